@@ -29,43 +29,52 @@ theorem find_body (pre post : List Node) (b : Node) (hb : b.named sBody = true)
     simp only [childNamed, List.cons_append, List.find?_cons, hn] at this ⊢
     exact this
 
+/-- the `p` / `tbl` elements at the block level of a list of children: the body content the
+readers present, block containers (`w:sdt` / `w:sdtContent`, `w:customXml`) looked through -/
+def bodyBlocks (kids : List Node) : List Node := (blocksOfList kids).filter isBodyElem
+
 /-- the walk over the `body` element itself, entered from outside -/
 theorem walk_body_node (bodyTag : Str) (ba : List (Str × Str)) (kids : List Node) (hbody : localName bodyTag = sBody) :
-    walkNode (childrenNamed kids sP) (childrenNamed kids sTbl) (.elem bodyTag ba kids)
-        { inBody := false, depth := 0, pi := 0, ti := 0, acc := [] } =
-      { inBody := false, depth := 0, pi := (childrenNamed kids sP).length,
-        ti := (childrenNamed kids sTbl).length, acc := kids.filter isBodyElem } := by
+    walkNode (childrenNamed (blocksOfList kids) sP) (childrenNamed (blocksOfList kids) sTbl) (.elem bodyTag ba kids)
+        { inBody := false, depth := 0, boxes := 0, pi := 0, ti := 0, acc := [] } =
+      { inBody := false, depth := 0, boxes := 0, pi := (childrenNamed (blocksOfList kids) sP).length,
+        ti := (childrenNamed (blocksOfList kids) sTbl).length, acc := bodyBlocks kids } := by
   simp only [walkNode]
-  have hs2 : startTok (childrenNamed kids sP) (childrenNamed kids sTbl) (localName bodyTag)
-      { inBody := false, depth := 0, pi := 0, ti := 0, acc := [] } =
-      { inBody := true, depth := 0, pi := 0, ti := 0, acc := [] } := by
+  have hs2 : startTok (childrenNamed (blocksOfList kids) sP) (childrenNamed (blocksOfList kids) sTbl) (localName bodyTag)
+      { inBody := false, depth := 0, boxes := 0, pi := 0, ti := 0, acc := [] } =
+      { inBody := true, depth := 0, boxes := 0, pi := 0, ti := 0, acc := [] } := by
     unfold startTok; simp [hbody]
-  rw [hs2, walk_body_kids _ _ kids _ rfl rfl (by simp) (by simp), endTok_body_end _ rfl rfl]
-  simp
+  rw [hs2, walk_block_list _ _ kids _ [] [] rfl rfl (by simp) (by simp), endTok_body_end _ rfl rfl]
+  simp [bodyBlocks]
 
 /-- **body_interleave** (DOCX). For every document tree whose root holds one `body`
 element (no other element named `body` before or after it), the element list produced
-by the second pass is exactly the sequence of the body's direct `p` / `tbl` children in
-source order - for every sequence of paragraphs and tables, whatever the children
-contain (cells with several paragraphs, nested tables, text boxes, content controls). -/
+by the second pass is exactly the sequence of the `p` / `tbl` elements at the block level of
+the body in source order: its direct `p` / `tbl` children AND those that sit in block-level
+containers - a content control `w:sdt` / `w:sdtContent`, a `w:customXml`, nested in one
+another to any depth -, each at the place of its container. For every sequence of paragraphs,
+tables and containers, whatever the blocks themselves contain (cells with several paragraphs,
+nested tables, text boxes). (Was `_partial` in effect: stated over the direct children only,
+with `docx_block_container_content_lost_counterexample` for the rest; the old statement is
+`body_interleave_old`, about the old pass.) -/
 theorem body_interleave (docTag bodyTag : Str) (da ba : List (Str × Str)) (pre kids post : List Node)
     (hdoc : localName docTag ≠ sBody) (hbody : localName bodyTag = sBody)
     (hpre : noBodyList pre = true) (hpost : noBodyList post = true) :
     parseBodyElementsInOrder (.elem docTag da (pre ++ [.elem bodyTag ba kids] ++ post))
-      = kids.filter isBodyElem := by
+      = bodyBlocks kids := by
   have hnamed : (Node.elem bodyTag ba kids).named sBody = true := by simp [hbody]
   unfold parseBodyElementsInOrder bodyOf
   simp only [Node.kids]
   rw [find_body pre post _ hnamed hpre]
-  simp only [Node.kids]
+  simp only [Node.kids, bodyParas, bodyTables]
   have hd : (localName docTag == sBody) = false := by
     cases h : localName docTag == sBody
     · rfl
     · exact absurd (by simpa using h) hdoc
   simp only [walkNode]
-  have hs : startTok (childrenNamed kids sP) (childrenNamed kids sTbl) (localName docTag)
-      { inBody := false, depth := 0, pi := 0, ti := 0, acc := [] } =
-      { inBody := false, depth := 0, pi := 0, ti := 0, acc := [] } := by
+  have hs : startTok (childrenNamed (blocksOfList kids) sP) (childrenNamed (blocksOfList kids) sTbl) (localName docTag)
+      { inBody := false, depth := 0, boxes := 0, pi := 0, ti := 0, acc := [] } =
+      { inBody := false, depth := 0, boxes := 0, pi := 0, ti := 0, acc := [] } := by
     unfold startTok; simp [hd]
   rw [hs, walkList_append, walkList_append, walk_outside_list _ _ pre _ rfl hpre]
   simp only [walkList]
@@ -73,15 +82,142 @@ theorem body_interleave (docTag bodyTag : Str) (da ba : List (Str × Str)) (pre 
   unfold endTok
   simp
 
-/-- the reader's element list is the processed body children, in source order -/
+/-- the reader's element list is the processed blocks of the body, in source order -/
 theorem elements_interleave (docTag bodyTag : Str) (da ba : List (Str × Str)) (pre kids post : List Node)
     (styles : Option Node)
     (hdoc : localName docTag ≠ sBody) (hbody : localName bodyTag = sBody)
     (hpre : noBodyList pre = true) (hpost : noBodyList post = true) :
     elements (.elem docTag da (pre ++ [.elem bodyTag ba kids] ++ post)) styles
-      = (kids.filter isBodyElem).map (processElement (stylesOf styles)) := by
+      = (bodyBlocks kids).map (processElement (stylesOf styles)) := by
   unfold elements
   rw [body_interleave docTag bodyTag da ba pre kids post hdoc hbody hpre hpost]
+
+/-- the body blocks of a list of children, piece by piece -/
+theorem bodyBlocks_append (a b : List Node) : bodyBlocks (a ++ b) = bodyBlocks a ++ bodyBlocks b := by
+  simp [bodyBlocks, blocksOfList_append, List.filter_append]
+
+/-- **body_container_transparent** (DOCX). Blocks wrapped in a block-level container - `w:sdt`,
+`w:sdtContent`, `w:customXml`, whatever its attributes - stand where the container stands:
+the element list of `pre, container[inner], post` is that of `pre`, then that of `inner`, then
+that of `post`. (By induction this covers containers nested in one another to any depth, as
+`inner` may hold containers again.) -/
+theorem body_container_transparent (ctag : Str) (ca : List (Str × Str)) (pre inner post : List Node)
+    (hc : blockContainers.contains (localName ctag) = true) :
+    bodyBlocks (pre ++ [.elem ctag ca inner] ++ post) = bodyBlocks pre ++ bodyBlocks inner ++ bodyBlocks post := by
+  rw [bodyBlocks_append, bodyBlocks_append]
+  have hm : localName ctag ∈ blockContainers := by simpa using hc
+  have : bodyBlocks [.elem ctag ca inner] = bodyBlocks inner := by
+    simp [bodyBlocks, blocksOfList, blocksOfNode, hm]
+  rw [this]
+
+example : blockContainers.contains (localName [119, 58, 115, 100, 116]) = true
+    ∧ blockContainers.contains (localName [119, 58, 115, 100, 116, 67, 111, 110, 116, 101, 110, 116]) = true
+    ∧ blockContainers.contains (localName [119, 58, 99, 117, 115, 116, 111, 109, 88, 109, 108]) = true := by decide
+
+/-- a direct `p` / `tbl` child stands for itself -/
+theorem bodyBlocks_block (n : Node) (h : isBodyElem n = true) : bodyBlocks [n] = [n] := by
+  cases n with
+  | text s => simp [isBodyElem] at h
+  | elem tag attrs kids =>
+    have hc : blockContainers.contains (localName tag) = false := by
+      simp only [isBodyElem, named_elem, Bool.or_eq_true, beq_iff_eq] at h
+      rcases h with h | h <;> rw [h] <;> decide
+    have hm : ¬ (localName tag ∈ blockContainers) := by simpa using hc
+    simp [bodyBlocks, blocksOfList, blocksOfNode, hm, h]
+
+/-- what is neither a block nor a block container (`w:sectPr`, a bookmark, the properties of a
+content control, character data) contributes nothing -/
+theorem bodyBlocks_other (n : Node) (h : isBodyElem n = false) (hc : blockContainers.contains n.loc = false) :
+    bodyBlocks [n] = [] := by
+  cases n with
+  | text s => simp [bodyBlocks, blocksOfList, blocksOfNode]
+  | elem tag attrs kids =>
+    simp only [Node.loc, Node.tag] at hc
+    have hm : ¬ (localName tag ∈ blockContainers) := by simpa using hc
+    simp [bodyBlocks, blocksOfList, blocksOfNode, hm, h]
+
+/-- **body_no_container**. Without a block container among the children of the body the
+element list is the direct `p` / `tbl` children in source order (what the pass presented
+before the repair, `body_interleave_old`: the repair changes nothing for such documents). -/
+theorem body_no_container (kids : List Node) (h : ∀ n ∈ kids, blockContainers.contains n.loc = false) :
+    bodyBlocks kids = kids.filter isBodyElem :=
+  blocks_plain_bodyElems kids h
+
+/-! #### HISTORY: the second pass before block containers were looked through -/
+
+/-- the old walk over the `body` element itself, entered from outside -/
+theorem walk_body_node_old (bodyTag : Str) (ba : List (Str × Str)) (kids : List Node) (hbody : localName bodyTag = sBody) :
+    walkNodeOld (childrenNamed kids sP) (childrenNamed kids sTbl) (.elem bodyTag ba kids)
+        { inBody := false, depth := 0, pi := 0, ti := 0, acc := [] } =
+      { inBody := false, depth := 0, pi := (childrenNamed kids sP).length,
+        ti := (childrenNamed kids sTbl).length, acc := kids.filter isBodyElem } := by
+  simp only [walkNodeOld]
+  have hs2 : startTokOld (childrenNamed kids sP) (childrenNamed kids sTbl) (localName bodyTag)
+      { inBody := false, depth := 0, pi := 0, ti := 0, acc := [] } =
+      { inBody := true, depth := 0, pi := 0, ti := 0, acc := [] } := by
+    unfold startTokOld; simp [hbody]
+  rw [hs2, walk_body_kids_old _ _ kids _ rfl rfl (by simp) (by simp), endTokOld_body_end _ rfl rfl]
+  simp
+
+/-- **body_interleave_old**. The former `body_interleave`, about the pass as it was: the
+element list was exactly the DIRECT `p` / `tbl` children of the body in source order - a block
+inside a block-level container was in no element (`docx_block_container_lost_old`). -/
+theorem body_interleave_old (docTag bodyTag : Str) (da ba : List (Str × Str)) (pre kids post : List Node)
+    (hdoc : localName docTag ≠ sBody) (hbody : localName bodyTag = sBody)
+    (hpre : noBodyList pre = true) (hpost : noBodyList post = true) :
+    parseBodyElementsInOrderOld (.elem docTag da (pre ++ [.elem bodyTag ba kids] ++ post))
+      = kids.filter isBodyElem := by
+  have hnamed : (Node.elem bodyTag ba kids).named sBody = true := by simp [hbody]
+  unfold parseBodyElementsInOrderOld bodyOf
+  simp only [Node.kids]
+  rw [find_body pre post _ hnamed hpre]
+  simp only [Node.kids]
+  have hd : (localName docTag == sBody) = false := by
+    cases h : localName docTag == sBody
+    · rfl
+    · exact absurd (by simpa using h) hdoc
+  simp only [walkNodeOld]
+  have hs : startTokOld (childrenNamed kids sP) (childrenNamed kids sTbl) (localName docTag)
+      { inBody := false, depth := 0, pi := 0, ti := 0, acc := [] } =
+      { inBody := false, depth := 0, pi := 0, ti := 0, acc := [] } := by
+    unfold startTokOld; simp [hd]
+  rw [hs, walkListOld_append, walkListOld_append, walk_outside_list_old _ _ pre _ rfl hpre]
+  simp only [walkListOld]
+  rw [walk_body_node_old bodyTag ba kids hbody, walk_outside_list_old _ _ post _ rfl hpost]
+  unfold endTokOld
+  simp
+
+/-- **docx_block_container_repair_scope**. What the old pass presented is a sub-sequence of
+what the repaired pass presents: every direct `p` / `tbl` child of the body is still there, in
+the same order; what is new are the blocks inside block containers, each between the
+direct children its container stood between. -/
+theorem docx_block_container_repair_scope (kids : List Node) :
+    (kids.filter isBodyElem).Sublist (bodyBlocks kids) := by
+  induction kids with
+  | nil => simp [bodyBlocks, blocksOfList]
+  | cons n rest ih =>
+    have happ : bodyBlocks (n :: rest) = bodyBlocks [n] ++ bodyBlocks rest := by
+      rw [← bodyBlocks_append]; rfl
+    rw [happ, List.filter_cons]
+    by_cases hb : isBodyElem n = true
+    · rw [if_pos hb, bodyBlocks_block n hb]
+      exact List.Sublist.cons₂ n ih
+    · rw [if_neg hb]
+      exact List.Sublist.trans ih (List.sublist_append_right _ _)
+
+/-- **docx_block_container_lost_old** (the defect, for every document). Under the old pass the
+blocks of a block container that is a child of the body were in no element: the element list of
+`pre, container[inner], post` was that of `pre` followed by that of `post`, whatever `inner`
+held - while the repaired pass presents `inner`'s blocks in between (`body_container_transparent`). -/
+theorem docx_block_container_lost_old (ctag : Str) (ca : List (Str × Str)) (pre inner post : List Node)
+    (hc : blockContainers.contains (localName ctag) = true) :
+    (pre ++ [Node.elem ctag ca inner] ++ post).filter isBodyElem = pre.filter isBodyElem ++ post.filter isBodyElem := by
+  have hn : isBodyElem (.elem ctag ca inner) = false := by
+    cases h : isBodyElem (.elem ctag ca inner)
+    · rfl
+    · simp only [isBodyElem, named_elem, Bool.or_eq_true, beq_iff_eq] at h
+      rcases h with h | h <;> rw [h] at hc <;> revert hc <;> decide
+  simp [List.filter_append, List.filter_cons, hn]
 
 /-! Non-vacuity: the tree of the defect the property quotes - a table whose only cell
 holds two paragraphs, then a second table, then a paragraph, then `w:sectPr`. The pinned
@@ -105,33 +241,62 @@ example : elements witnessDoc none =
 example : localName [119, 58, 100, 111, 99, 117, 109, 101, 110, 116] ≠ sBody ∧ localName [119, 58, 98, 111, 100, 121] = sBody
     ∧ noBodyList [wP [wR [wT [65]]]] = true := by decide
 
-/-! Block-level containers of the body. `body_interleave` speaks about the DIRECT `p` / `tbl`
-children of the body, because that is what `xml.Unmarshal` collects (`bodyXML`: struct tags
-`p` and `tbl`) and what the second pass pairs. A paragraph that sits in a block-level content
+/-! Block-level containers of the body. A paragraph that sits in a block-level content
 control (`w:sdt` / `w:sdtContent`: a cover page, a table of contents, a rich-text control
-around whole paragraphs) or in `w:customXml` is body content of the document all the same,
-and the readers present none of it: known finding `C16/docx-block-container-content-lost`
-(harness/c16 structure.go, fixed witnesses 18 and 19). The blocks around the container keep
-their order - that part is `body_interleave`. -/
+around whole paragraphs) or in `w:customXml` is body content of the document, at the place of
+the container. REPAIRED (was known finding `C16/docx-block-container-content-lost`,
+harness/c16 structure.go, fixed witnesses 18 and 19): `bodyXML.UnmarshalXML` and the second
+pass look through these containers, `tableCellXML.UnmarshalXML` does the same inside a cell. -/
 def wSdt (kids : List Node) : Node :=
   .elem [119, 58, 115, 100, 116] []
     [.elem [119, 58, 115, 100, 116, 80, 114] [] [],
      .elem [119, 58, 115, 100, 116, 67, 111, 110, 116, 101, 110, 116] [] kids]
+def wCustomXml (kids : List Node) : Node :=
+  .elem [119, 58, 99, 117, 115, 116, 111, 109, 88, 109, 108] [] kids
 def boxedDoc : Node :=
   .elem [119, 58, 100, 111, 99, 117, 109, 101, 110, 116] []
     [.elem [119, 58, 98, 111, 100, 121] []
       [wP [wR [wT [65]]], wSdt [wP [wR [wT [66]]]], wTbl [[wP [wR [wT [67]]]]], wP [wR [wT [68]]], wP [wR [wT [69]]],
        .elem [119, 58, 115, 101, 99, 116, 80, 114] [] []]]
 
-/-- **docx_block_container_content_lost_counterexample**. The body `A`, content control
-holding the paragraph `B`, table `C`, `D`, `E`: the reader's element list is `A`, table `C`,
-`D`, `E` - in source order, and `B` is in no element. -/
-theorem docx_block_container_content_lost_counterexample :
-    elements boxedDoc none =
+/-- **docx_block_container_content_lost_pinned_counterexample** (was
+`docx_block_container_content_lost_counterexample`, about the reader as it was). The body `A`,
+content control holding the paragraph `B`, table `C`, `D`, `E`: the OLD reader's element list
+is `A`, table `C`, `D`, `E` - in source order, and `B` is in no element; the repaired reader's
+is `A`, `B`, table `C`, `D`, `E`. -/
+theorem docx_block_container_content_lost_pinned_counterexample :
+    elementsOld boxedDoc none =
       [.para { text := [65], heading := none, list := none },
        .table [[{ text := [67], colSpan := 1, rowSpan := 1, cont := false }]],
        .para { text := [68], heading := none, list := none },
-       .para { text := [69], heading := none, list := none }] := by decide +kernel
+       .para { text := [69], heading := none, list := none }]
+    ∧ elements boxedDoc none =
+      [.para { text := [65], heading := none, list := none },
+       .para { text := [66], heading := none, list := none },
+       .table [[{ text := [67], colSpan := 1, rowSpan := 1, cont := false }]],
+       .para { text := [68], heading := none, list := none },
+       .para { text := [69], heading := none, list := none }] := by
+  constructor <;> decide +kernel
+
+/-- containers nested in one another around a heading-less paragraph and a table, a table
+behind the container: `A`, customXml[ sdt[ `B`, table `C` ] ], table `D`, `E` -/
+def nestedBoxDoc : Node :=
+  .elem [119, 58, 100, 111, 99, 117, 109, 101, 110, 116] []
+    [.elem [119, 58, 98, 111, 100, 121] []
+      [wP [wR [wT [65]]], wCustomXml [wSdt [wP [wR [wT [66]]], wTbl [[wP [wR [wT [67]]]]]]],
+       wTbl [[wP [wR [wT [68]]]]], wP [wR [wT [69]]]]]
+
+example : elements nestedBoxDoc none =
+    [.para { text := [65], heading := none, list := none },
+     .para { text := [66], heading := none, list := none },
+     .table [[{ text := [67], colSpan := 1, rowSpan := 1, cont := false }]],
+     .table [[{ text := [68], colSpan := 1, rowSpan := 1, cont := false }]],
+     .para { text := [69], heading := none, list := none }] := by decide +kernel
+
+example : elementsOld nestedBoxDoc none =
+    [.para { text := [65], heading := none, list := none },
+     .table [[{ text := [68], colSpan := 1, rowSpan := 1, cont := false }]],
+     .para { text := [69], heading := none, list := none }] := by decide +kernel
 
 /-! ### inline content -/
 
@@ -302,9 +467,47 @@ theorem table_content_kept (tbl : Node) :
   rw [h2, limit_content]
   simp [parseRows, List.map_map, Function.comp_def]
 
-/-- multi-paragraph cells: the non-empty paragraph texts, in order, joined by a newline -/
+/-- multi-paragraph cells: the non-empty texts of the cell's paragraphs (`cellParas`: the `w:p`
+elements at the block level of the cell), in order, joined by a newline -/
 theorem cell_text_joined (tc : Node) :
-    (parseCell tc).text = joinWith [10] (((childrenNamed tc.kids sP).map cellParaText).filter (· ≠ [])) := rfl
+    (parseCell tc).text = joinWith [10] (((cellParas tc).map cellParaText).filter (· ≠ [])) := rfl
+
+/-- the paragraphs of a cell, piece by piece -/
+theorem cellParas_append (tag : Str) (attrs : List (Str × Str)) (a b : List Node) :
+    cellParas (.elem tag attrs (a ++ b)) = cellParas (.elem tag attrs a) ++ cellParas (.elem tag attrs b) := by
+  simp [cellParas, Node.kids, blocksOfList_append, childrenNamed_append]
+
+/-- **cell_container_transparent** (DOCX). Paragraphs of a cell wrapped in a block-level
+container (`w:sdt` / `w:sdtContent`, `w:customXml`) are paragraphs of the cell at the place of
+the container, so their text is in the cell text between what stands before and behind it. -/
+theorem cell_container_transparent (tcTag ctag : Str) (ta ca : List (Str × Str)) (pre inner post : List Node)
+    (hc : blockContainers.contains (localName ctag) = true) :
+    cellParas (.elem tcTag ta (pre ++ [.elem ctag ca inner] ++ post)) =
+      cellParas (.elem tcTag ta pre) ++ cellParas (.elem tcTag ta inner) ++ cellParas (.elem tcTag ta post) := by
+  rw [cellParas_append, cellParas_append]
+  have hm : localName ctag ∈ blockContainers := by simpa using hc
+  have : cellParas (.elem tcTag ta [.elem ctag ca inner]) = cellParas (.elem tcTag ta inner) := by
+    simp [cellParas, Node.kids, blocksOfList, blocksOfNode, hm]
+  rw [this]
+
+/-- without a block container among its children a cell's paragraphs are its direct `w:p`
+children (what `parseCellOld` read: the repair changes nothing for such cells) -/
+theorem cell_no_container (tc : Node) (h : ∀ n ∈ tc.kids, blockContainers.contains n.loc = false) :
+    cellParas tc = childrenNamed tc.kids sP ∧ parseCell tc = parseCellOld tc := by
+  have hb : blocksOfList tc.kids = tc.kids.filter (·.isElem) := blocksOfList_plain tc.kids h
+  have h1 := childrenNamed_filter_isElem tc.kids
+  have h2 := childNamed_filter_isElem tc.kids
+  constructor
+  · simp only [cellParas, hb, h1]
+  · simp only [parseCell, parseCellOld, cellParas, hb, h1, h2]
+
+/-- **docx_cell_container_content_lost_pinned_counterexample**. The cell `A`, content control
+holding the paragraph `B`, `C`: the OLD reader's cell text is `A\nC`, the repaired reader's
+`A\nB\nC`. -/
+theorem docx_cell_container_content_lost_pinned_counterexample :
+    (parseCellOld (.elem [119, 58, 116, 99] [] [wP [wR [wT [65]]], wSdt [wP [wR [wT [66]]]], wP [wR [wT [67]]]])).text = [65, 10, 67]
+    ∧ (parseCell (.elem [119, 58, 116, 99] [] [wP [wR [wT [65]]], wSdt [wP [wR [wT [66]]]], wP [wR [wT [67]]]])).text = [65, 10, 66, 10, 67] := by
+  constructor <;> decide +kernel
 
 /-- vertical merge, the regular case checked on an instance by the kernel: a 3-row column
 `restart / continue / (bare)` next to plain cells gives the start cell row span 3 -/
